@@ -15,7 +15,10 @@ META = {
             "(every schedule of the 2n+1 threads): invoked at most once, only when every dependency is resolved, exactly "
             "once when all parties are through, and every step projects to a step of the abstract vertex the engine model "
             "uses (refinement), whose invoke guard is proved equal to the engine model's; the closure counters fire "
-            "finish(0)/flush only under the engine model's guards; (3) an event-level engine model of a whole run for every "
+            "finish(0)/flush only under the engine model's guards; (2c) the publication wrapper Committer<T> as a state machine (valid / moved-from / released; what the move "
+            "constructor, move assignment, destructor, release(), cancel() and get() do is regenerated from data.hpp): for "
+            "every program of committer operations a data is published exactly once, at release()/destruction of its unique "
+            "valid committer, never by a move, and never written after publication; (3) an event-level engine model of a whole run for every "
             "acyclic graph, input, target set and schedule: values of ready data equal the sequential evaluation, only "
             "needed vertices are activated, every data is sealed once; with wait() every step decreases a measure, no "
             "unflushed state is stuck and a flushed state is finished with no vertex running (termination without "
@@ -23,8 +26,11 @@ META = {
             "real anyflow classes (their .cpp compiled behind the atomic shim) run random DAGs from the same descriptor as "
             "the extracted model under a deterministic scheduler (inplace executor and a harness GraphExecutor whose queued "
             "tasks are picked by 1-3 worker threads, extra threads injecting data during activation, run/reset cycles); "
-            "final values, invocation inputs, needed-vertex bounds and error class must equal the model's sequential "
-            "evaluation; one-dependency graphs are explored exhaustively in the extracted protocol machine and every "
+            "processors publish through Committer<T> in six ways (in place, move-constructed, moved twice + "
+            "move-assigned, move-assigned over a valid committer, explicit release, moved into a spawned thread that fills "
+            "and releases later); final values, invocation inputs, needed-vertex bounds and error class must equal the "
+            "model's sequential evaluation; random committer programs run on the real class and on the extracted machine "
+            "and must agree on which operation published each data and with what content; one-dependency graphs are explored exhaustively in the extracted protocol machine and every "
             "implementation outcome must be admitted; monitors check the property text on every run.",
     "note": "Trusted: Coq kernel; translator; extraction (ExtrOcamlBasic) + OCaml explorer/driver; macro shim and dsched "
             "(sequentially consistent interleavings only; memory-order obligations checked on the regenerated site table); "
@@ -644,7 +650,10 @@ def main(argv):
                        "unless / essential, 1-2 emits, boolean and failing processors, trivial vertices; presets incl. empty "
                        "and missing inputs; 1-3 requested targets; executor inplace or 1-3 workers picking queued run tasks in "
                        "random order; optional injector threads; 1-2 run/reset cycles; schedule seed; strategy uniform / "
-                       "round-robin+pre-emption / PCT).  unit case = one vertex with one (conditional) dependency, "
+                       "round-robin+pre-emption / PCT).  publication through Committer<T> in place / moved / move-assigned / explicit release / deferred in a spawned "
+                       "thread.  committer program = random sequence of construct / move-construct / move-assign / write / "
+                       "clear / release / destroy / cancel on two data, compared op-for-op with the extracted machine.  "
+                       "unit case = one vertex with one (conditional) dependency, "
                        "GraphVertex::activate in one thread against release() of condition and target in two others.  "
                        "distinct non-trivial = distinct (graph, observed outcome per cycle) resp. (unit config, outcome). "
                        "Every graph case is also evaluated by the extracted model (sequential evaluation, demand set, "
